@@ -647,7 +647,7 @@ def run_checks(names=None):
 # find / rerun
 # ============================================================================================
 # html constructs without a recorded finding (a failure there is a new defect of the node walk)
-HTML_SOUND_CASES = ["p", "inline", "spans", "p-br", "list", "nested-list", "list-item-tails", "hr", "table", "table-sections", "table-tail", "dl", "pre", "combinations"]
+HTML_SOUND_CASES = ["p", "inline", "spans", "p-br", "list", "nested-list", "list-item-tails", "hr", "table", "table-sections", "table-tail", "dl", "pre", "empty-leaves", "empty-blocks", "combinations"]
 
 FUNC_OF_CHECK = {
     "docx.table": "docx_extractor.py::_extract_table_text", "odt.body": "odt_extractor.py::_extract_full_text",
